@@ -71,3 +71,6 @@ package vars
 // C10: the encoder's argument pointer bitmap is the pointer map of the Encoder signature.
 //@ datainv argptrs_encoder props C10: len(initval(ArgPtrs)) == argwords(Encoder) && (forall i int :: (0 <= i && i < argwords(Encoder)) ==> initval(ArgPtrs)[i] == ptrword(Encoder, i))
 //@ datainv localptrs_encoder props C10: len(initval(LocalPtrs)) == 0 && len(initval(LocalPtrs_generic)) == 0 && len(initval(ArgPtrs_generic)) == 1 && initval(ArgPtrs_generic)[0] == true
+
+//@ func Error_marshaler assumed "fmt.Errorf: a non-nil error"
+//@   ensures result != nil
